@@ -8,7 +8,9 @@ the Python heap as far as copying is concerned:
 
 * a symbol store: `name s` (the symbol's name) and `deps s` (the symbols its datatype and initial
   value refer to: kind parameter, References inside array bounds, derived-type symbol, References
-  in the initial-value expression),
+  in the initial-value expression; for a `DataTypeSymbol` with a `StructureType` the kinds, bounds
+  and default initialisers of its components).  The expression NODES inside datatypes have no
+  identity in the model: that the copy gets its own is checked on the real objects by the harness,
 * a list of detached trees.  A tree is a first-child/next-sibling `Forest` whose nodes carry their
   identity, class (`kind`), `sym` (`Reference.symbol`, `Loop.variable`, `Routine.return_symbol`),
   `tsym` (the symbol used by the node's own datatype: the kind parameter of a `Literal`) and, for a
